@@ -9,6 +9,8 @@
 -/
 import RdestModel.Tracker.Resp
 import RdestModel.Tracker.Retry
+import RdestModel.Tracker.Respawn
+import RdestModel.Lemmas.Cand
 import RdestModel.Gen.Constants
 set_option linter.unusedSimpArgs false
 set_option linter.unusedVariables false
@@ -347,6 +349,392 @@ theorem old_deadlock_beyond_channel_capacity :
   decide +kernel
 
 end Retry
+
+/-! ## Part 2b: what the manager does with a good reply (`handle_tracker_cmd`, model `Swarm/Cand.lean`) -/
+
+section Contact
+open Rdest.Swarm Rdest.Swarm.Book Rdest.Gen
+
+/-- **T5 (C19, manager model).** Handling a good reply in any manager state: the listed addresses are appended to the
+    candidates; with `k` connected peers we are interested in, `n = MAX_UNCHOKED + MAX_OPTIMISTIC - k` candidates are
+    taken from the end of the list, and **every one of them has a connection afterwards** (a connection task was
+    started for it unless one to that address existed); the others stay queued, in order; the tracker handle is
+    released. -/
+theorem T5_reply_contacts_the_listed_peers (guard : Bool) (c c' : CState) (l : List Nat) (r : Reply)
+    (h : bkstep guard c (.trackerResp l) = some (c', r)) :
+    let all := c.cands ++ l
+    let n := (MAX_UNCHOKED + MAX_OPTIMISTIC) - (c.x.m.peers.filter (·.amInterested)).length
+    c'.cands = all.take (all.length - n) ∧ (∀ a ∈ all.drop (all.length - n), connected c' a = true) ∧
+      c'.trackerHeld = false ∧ c'.x.m.statuses = c.x.m.statuses := by
+  simp only [bkstep, Option.some.injEq, Prod.mk.injEq] at h
+  obtain ⟨h, _⟩ := h
+  subst h
+  refine ⟨?_, ?_, rfl, ?_⟩
+  · simp only [spawnN_cands]; rfl
+  · intro a ha
+    have := spawnN_connects (spawnNum { c with cands := c.cands ++ l, listed := c.listed ++ l })
+      { c with cands := c.cands ++ l, listed := c.listed ++ l } a ha
+    simpa [connected] using this
+  · simp
+
+/-- The constants the statement above depends on, from the source: eleven connections at most are started. -/
+theorem T5_spawn_limit : MAX_UNCHOKED + MAX_OPTIMISTIC = 11 := by decide
+
+/-- **T5 (corollary).** A session without connections and without queued candidates that gets a reply listing at most
+    eleven peers has a connection to every listed peer afterwards. -/
+theorem T5_fresh_session_contacts_every_listed_peer (guard : Bool) (c c' : CState) (l : List Nat) (r : Reply)
+    (hp : c.x.m.peers = []) (hc : c.cands = []) (hl : l.length ≤ 11)
+    (h : bkstep guard c (.trackerResp l) = some (c', r)) : c'.cands = [] ∧ ∀ a ∈ l, connected c' a = true := by
+  have := T5_reply_contacts_the_listed_peers guard c c' l r h
+  simp only [hp, hc, List.nil_append, List.filter_nil, List.length_nil, MAX_UNCHOKED_val, MAX_OPTIMISTIC_val] at this
+  obtain ⟨h1, h2, _, _⟩ := this
+  have hz : l.length - (10 + 1 - 0) = 0 := by omega
+  rw [hz] at h1 h2
+  exact ⟨by simpa using h1, by simpa using h2⟩
+
+/-- Non-vacuity (test): three listed peers, fresh session. -/
+example : ((bkstep true (cinit 2) (.trackerResp [5, 6, 7])).map fun p => (p.1.cands, p.1.contacted, p.1.trackerHeld)) =
+    some ([], [7, 6, 5], false) := by decide
+
+end Contact
+
+/-! ## Part 3: several tracker tasks (`handle_kill_req` asks for a new announce) -/
+
+namespace Respawn
+open Rdest.Tracker.Respawn
+open Rdest.Tracker.Retry (Cmd)
+
+inductive Reach (guard : Bool) (cap : Nat) : St → Prop where
+  | init : Reach guard cap init
+  | step (s s' : St) (l : Label) : Reach guard cap s → step guard cap s l = some s' → Reach guard cap s'
+
+structure Inv (s : St) : Prop where
+  /-- every task whose handle the manager does not hold has returned -/
+  othersDone : ∀ i t, s.tasks[i]? = some t → s.held ≠ some i → t = .done
+  heldLt : ∀ i, s.held = some i → i < s.tasks.length
+  joinLt : ∀ i, s.joining = some i → i < s.tasks.length
+  joinNoHeld : s.joining.isSome → s.held = none
+  /-- a good reply in the channel was sent by the held task, which has returned -/
+  respDone : Cmd.resp ∈ s.chan → ∃ i, s.held = some i ∧ s.tasks[i]? = some .done
+  /-- at most one good reply is queued -/
+  respOnce : s.chan.count Cmd.resp ≤ 1
+
+theorem inv_init : Inv init := by
+  refine ⟨?_, ?_, ?_, ?_, ?_, ?_⟩
+  · intro i t h hh
+    cases i with
+    | zero => simp [init] at hh
+    | succ i => simp [init] at h
+  · intro i h; simp [init] at h; subst h; simp [init]
+  · intro i h; simp [init] at h
+  · intro h; simp [init] at h
+  · intro h; simp [init] at h
+  · simp [init]
+
+theorem getElem?_set_cases {l : List Tk} {i j : Nat} {v t : Tk} (h : (l.set i v)[j]? = some t) :
+    (j = i ∧ t = v) ∨ (j ≠ i ∧ l[j]? = some t) := by
+  by_cases hji : j = i
+  · subst hji
+    left
+    have hlt : j < l.length := by
+      have := (List.getElem?_eq_some_iff.mp h).1
+      simpa using this
+    simp [List.getElem?_set_self hlt] at h
+    exact ⟨rfl, h.symm⟩
+  · right
+    rw [List.getElem?_set_ne (Ne.symm hji)] at h
+    exact ⟨hji, h⟩
+
+theorem inv_step (cap : Nat) (s s' : St) (l : Label) (hi : Inv s) (h : step true cap s l = some s') : Inv s' := by
+  obtain ⟨h1, h2, h3, h4, h5, h6⟩ := hi
+  cases l with
+  | attempt i ok =>
+    simp only [step] at h
+    split at h
+    · rename_i ht
+      cases h
+      have hheld : s.held = some i := by
+        by_cases hh : s.held = some i
+        · exact hh
+        · have := h1 i _ ht hh; cases this
+      refine ⟨?_, ?_, ?_, h4, ?_, h6⟩
+      · intro j t hj hh
+        rcases getElem?_set_cases hj with ⟨rfl, _⟩ | ⟨_, hj'⟩
+        · exact absurd hheld hh
+        · exact h1 j t hj' hh
+      · intro j hj; simpa using h2 j hj
+      · intro j hj; simpa using h3 j hj
+      · intro hr
+        obtain ⟨j, hj1, hj2⟩ := h5 hr
+        rw [hheld] at hj1; cases hj1
+        rw [ht] at hj2; cases hj2
+    · cases h
+  | send i =>
+    simp only [step] at h
+    split at h
+    · rename_i c ht
+      split at h
+      · cases h
+        have hheld : s.held = some i := by
+          by_cases hh : s.held = some i
+          · exact hh
+          · have := h1 i _ ht hh; cases this
+        have hlt : i < s.tasks.length := h2 i hheld
+        have hnoresp : Cmd.resp ∉ s.chan := by
+          intro hr
+          obtain ⟨j, hj1, hj2⟩ := h5 hr
+          rw [hheld] at hj1; cases hj1
+          rw [ht] at hj2; cases hj2
+        refine ⟨?_, ?_, ?_, h4, ?_, ?_⟩
+        · intro j t hj hh
+          rcases getElem?_set_cases hj with ⟨rfl, _⟩ | ⟨_, hj'⟩
+          · exact absurd hheld hh
+          · exact h1 j t hj' hh
+        · intro j hj; simpa using h2 j hj
+        · intro j hj; simpa using h3 j hj
+        · intro hr
+          simp only [List.mem_append, List.mem_singleton] at hr
+          rcases hr with hr | hr
+          · exact absurd hr hnoresp
+          · subst hr
+            exact ⟨i, hheld, by simp [List.getElem?_set_self hlt]⟩
+        · rw [List.count_append, List.count_eq_zero.mpr hnoresp]
+          cases c <;> simp
+      · cases h
+    · cases h
+  | wake i =>
+    simp only [step] at h
+    split at h
+    · rename_i ht
+      cases h
+      have hheld : s.held = some i := by
+        by_cases hh : s.held = some i
+        · exact hh
+        · have := h1 i _ ht hh; cases this
+      refine ⟨?_, ?_, ?_, h4, ?_, h6⟩
+      · intro j t hj hh
+        rcases getElem?_set_cases hj with ⟨rfl, _⟩ | ⟨_, hj'⟩
+        · exact absurd hheld hh
+        · exact h1 j t hj' hh
+      · intro j hj; simpa using h2 j hj
+      · intro j hj; simpa using h3 j hj
+      · intro hr
+        obtain ⟨j, hj1, hj2⟩ := h5 hr
+        rw [hheld] at hj1; cases hj1
+        rw [ht] at hj2; cases hj2
+    · cases h
+  | recv =>
+    simp only [step] at h
+    split at h
+    · cases h
+    · rename_i hnj
+      split at h
+      · cases h
+      · rename_i rest hc
+        cases h
+        obtain ⟨i, hi1, hi2⟩ := h5 (by rw [hc]; simp)
+        have hrest : Cmd.resp ∉ rest := by
+          rw [hc, List.count_cons_self] at h6
+          exact List.count_eq_zero.mp (by omega)
+        refine ⟨?_, ?_, ?_, ?_, ?_, ?_⟩
+        · intro j t hj _
+          by_cases hji : s.held = some j
+          · rw [hi1] at hji; cases hji; rw [hi2] at hj; cases hj; rfl
+          · exact h1 j t hj hji
+        · intro j hj; cases hj
+        · intro j hj; exact h2 j hj
+        · intro _; rfl
+        · intro hr; exact absurd hr hrest
+        · rw [List.count_eq_zero.mpr hrest]; omega
+      · rename_i rest hc
+        cases h
+        refine ⟨h1, h2, h3, h4, ?_, ?_⟩
+        · intro hr
+          exact h5 (by rw [hc]; exact List.mem_cons_of_mem _ hr)
+        · rw [hc] at h6
+          have : List.count Cmd.resp (Cmd.fail :: rest) = List.count Cmd.resp rest := by
+            rw [List.count_cons]; simp
+          show List.count Cmd.resp rest ≤ 1
+          omega
+  | joined =>
+    simp only [step] at h
+    split at h
+    · split at h
+      · cases h
+        exact ⟨h1, h2, (fun j hj => nomatch hj), (fun hj => nomatch hj), h5, h6⟩
+      · cases h
+    · cases h
+  | lost =>
+    simp only [step] at h
+    split at h
+    · cases h
+    · rename_i hnj
+      split at h
+      · cases h; exact ⟨h1, h2, h3, h4, h5, h6⟩
+      · rename_i hg
+        cases h
+        have hnone : s.held = none := by
+          cases hh : s.held with
+          | none => rfl
+          | some i => simp [hh] at hg
+        refine ⟨?_, ?_, ?_, ?_, ?_, h6⟩
+        · intro j t hj hh
+          by_cases hjl : j < s.tasks.length
+          · rw [List.getElem?_append_left hjl] at hj
+            exact h1 j t hj (by rw [hnone]; simp)
+          · have : j ≠ s.tasks.length := fun e => hh (by rw [e])
+            rw [List.getElem?_append_right (by omega)] at hj
+            have : j - s.tasks.length ≠ 0 := by omega
+            cases hk : j - s.tasks.length with
+            | zero => omega
+            | succ k => rw [hk] at hj; simp at hj
+        · intro j hj; cases hj; simp
+        · intro j hj; have := h3 j hj; simp; omega
+        · intro hj; simp at hnj; simp [hnj] at hj
+        · intro hr
+          obtain ⟨i, hi1, _⟩ := h5 hr
+          rw [hnone] at hi1; cases hi1
+
+theorem inv_reach (cap : Nat) (s : St) (h : Reach true cap s) : Inv s := by
+  induction h with
+  | init => exact inv_init
+  | step s s' l _ hs ih => exact inv_step cap s s' l ih hs
+
+/-- **T6a (C19, model with any number of lost connections and re-announces).** Whatever the tracker answers to each
+    announce (fail, recover, fail again — in any pattern), however often a connection is lost with no candidate left,
+    and however the steps interleave: whenever the manager awaits a tracker task, that task has already returned. The
+    manager is never stuck behind a tracker task that is still retrying. -/
+theorem T6_manager_never_blocked_by_a_reannounce (cap : Nat) (s : St) (h : Reach true cap s) : managerFree s = true := by
+  have hi := inv_reach cap s h
+  unfold managerFree
+  cases hj : s.joining with
+  | none => rfl
+  | some i =>
+    simp only [decide_eq_true_eq]
+    have hnone := hi.joinNoHeld (by simp [hj])
+    have hlt := hi.joinLt i hj
+    have hget : s.tasks[i]? = some s.tasks[i] := List.getElem?_eq_getElem hlt
+    rw [hget, hi.othersDone i _ hget (by simp [hnone])]
+
+/-- **T6b.** At most one tracker task is announcing at any time: two tasks that have not returned are the same task. -/
+theorem T6_single_announcer (cap : Nat) (s : St) (h : Reach true cap s) (i j : Nat) (ti tj : Tk)
+    (hi : s.tasks[i]? = some ti) (hj : s.tasks[j]? = some tj) (hni : ti ≠ .done) (hnj : tj ≠ .done) : i = j := by
+  have inv := inv_reach cap s h
+  have h1 : s.held = some i := by
+    by_cases hh : s.held = some i
+    · exact hh
+    · exact absurd (inv.othersDone i ti hi hh) hni
+  have h2 : s.held = some j := by
+    by_cases hh : s.held = some j
+    · exact hh
+    · exact absurd (inv.othersDone j tj hj hh) hnj
+  rw [h1] at h2; cases h2; rfl
+
+/-- **T6c.** Once the good reply has been taken (no handle held) nobody announces any more. -/
+theorem T6_quiet_after_the_reply (cap : Nat) (s : St) (h : Reach true cap s) (hh : s.held = none) (i : Nat) (t : Tk)
+    (hi : s.tasks[i]? = some t) : t = .done :=
+  (inv_reach cap s h).othersDone i t hi (by simp [hh])
+
+/-! ### The code as it was (`guard = false`): a second tracker task replaces the held handle -/
+
+/-- The manager awaits task `i`, and task `i` is in its retry loop. -/
+def StuckOn (i : Nat) (s : St) : Prop :=
+  s.joining = some i ∧
+    (s.tasks[i]? = some .trying ∨ s.tasks[i]? = some (.sending .fail) ∨ s.tasks[i]? = some .sleeping)
+
+theorem stuck_not_free (i : Nat) (s : St) (h : StuckOn i s) : managerFree s = false := by
+  obtain ⟨hj, ht⟩ := h
+  unfold managerFree
+  rw [hj]
+  rcases ht with ht | ht | ht <;> simp [ht]
+
+/-- While the tracker keeps failing the awaited task, the manager stays stuck — whatever else happens. -/
+theorem stuck_step (guard : Bool) (cap i : Nat) (s s' : St) (l : Label) (h : StuckOn i s) (hl : l ≠ .attempt i true)
+    (hs : step guard cap s l = some s') : StuckOn i s' := by
+  obtain ⟨hj, ht⟩ := h
+  cases l with
+  | attempt k ok =>
+    simp only [step] at hs
+    split at hs
+    · rename_i hk
+      cases hs
+      refine ⟨hj, ?_⟩
+      by_cases hki : k = i
+      · subst hki
+        have hlt : k < s.tasks.length := (List.getElem?_eq_some_iff.mp hk).1
+        cases ok with
+        | true => exact absurd rfl hl
+        | false => right; left; simp [List.getElem?_set_self hlt]
+      · simp only [List.getElem?_set_ne hki]; exact ht
+    · cases hs
+  | send k =>
+    simp only [step] at hs
+    split at hs
+    · rename_i c hk
+      split at hs
+      · cases hs
+        refine ⟨hj, ?_⟩
+        by_cases hki : k = i
+        · subst hki
+          have hlt : k < s.tasks.length := (List.getElem?_eq_some_iff.mp hk).1
+          rcases ht with ht | ht | ht
+          · rw [hk] at ht; cases ht
+          · rw [hk] at ht; cases ht; right; right; simp [List.getElem?_set_self hlt]
+          · rw [hk] at ht; cases ht
+        · simp only [List.getElem?_set_ne hki]; exact ht
+      · cases hs
+    · cases hs
+  | wake k =>
+    simp only [step] at hs
+    split at hs
+    · rename_i hk
+      cases hs
+      refine ⟨hj, ?_⟩
+      by_cases hki : k = i
+      · subst hki
+        have hlt : k < s.tasks.length := (List.getElem?_eq_some_iff.mp hk).1
+        left; simp [List.getElem?_set_self hlt]
+      · simp only [List.getElem?_set_ne hki]; exact ht
+    · cases hs
+  | recv => simp [step, hj] at hs
+  | joined =>
+    simp only [step, hj] at hs
+    split at hs
+    · rename_i hd; rcases ht with ht | ht | ht <;> (rw [ht] at hd; cases hd)
+    · cases hs
+  | lost => simp [step, hj] at hs
+
+theorem stuck_exec (guard : Bool) (cap i : Nat) (s s' : St) (ls : List Label) (h : StuckOn i s)
+    (hl : Label.attempt i true ∉ ls) (hs : exec guard cap s ls = some s') : managerFree s' = false := by
+  induction ls generalizing s with
+  | nil => simp [exec] at hs; subst hs; exact stuck_not_free i s h
+  | cons l ls ih =>
+    simp only [exec] at hs
+    cases h1 : step guard cap s l with
+    | none => rw [h1] at hs; cases hs
+    | some s1 =>
+      rw [h1] at hs
+      simp only [List.mem_cons, not_or] at hl
+      exact ih s1 (stuck_step guard cap i s s1 l h (Ne.symm hl.1) h1) hl.2 hs
+
+/-- **Refutation for the code as it was.** A connection is lost while the first announce is outstanding (a second
+    tracker task is started, its handle replaces the first); the first task then gets the good reply. Handling that
+    reply the manager awaits the *second* task — and stays blocked through every further schedule in which the tracker
+    does not answer that task successfully (e.g. a tracker that refuses a second announce within its minimum
+    interval), serving no connection meanwhile. -/
+theorem old_manager_blocked_by_second_tracker_task (cap : Nat) (hcap : 0 < cap) :
+    ∃ s, exec false cap init [.lost, .attempt 0 true, .send 0, .recv] = some s ∧ s.handled = 1 ∧
+      ∀ ls s', Label.attempt 1 true ∉ ls → exec false cap s ls = some s' → managerFree s' = false := by
+  refine ⟨⟨[.done, .trying], none, [], some 1, 1⟩, ?_, rfl, ?_⟩
+  · simp [exec, step, init, hcap]
+  · intro ls s' hl hs
+    exact stuck_exec false cap 1 _ s' ls ⟨rfl, Or.inl rfl⟩ hl hs
+
+/-- Non-vacuity (test): with the guard the same schedule leaves the manager free and nobody announcing. -/
+example : (exec true 64 init [.lost, .attempt 0 true, .send 0, .recv, .joined]).map (fun s => (managerFree s, live s)) = some (true, 0) := by
+  decide
+
+end Respawn
 
 /-! ### Non-vacuity (tests) -/
 
